@@ -1,6 +1,7 @@
 package main
 
 import (
+	"context"
 	"fmt"
 	"math/rand"
 	"os"
@@ -11,7 +12,7 @@ import (
 )
 
 const (
-	vmFuel  = 400000 // steps of the VM model
+	vmFuel  = 250000 // steps of the VM model
 	semFuel = 20000  // recursion depth of the reference interpreter
 )
 
@@ -62,8 +63,15 @@ func init() {
 
 	// (a) real VM = VmExecM on the dump of the same built program
 	Register("C01-vm-cases", func(c *Ctx) {
-		for _, p := range programs(c, count(c, c.N, 60, 600)) {
+		timeouts := 0
+		for _, p := range programs(c, count(c, c.N, 45, 600)) {
+			if timeouts >= 10 {
+				break
+			}
 			r := runScriggo(p.ScriggoSource())
+			if r.runErr == context.DeadlineExceeded {
+				timeouts++
+			}
 			if r.buildErr != nil || r.funcs == nil {
 				c.Count("build-failed")
 				continue
@@ -84,8 +92,15 @@ func init() {
 
 	// (b) translation validation, program by program: VmExecM on the dump = MiniGoSem on the source AST
 	Register("C01-tv-cases", func(c *Ctx) {
-		for _, p := range programs(c, count(c, c.N, 60, 600)) {
+		timeouts := 0
+		for _, p := range programs(c, count(c, c.N, 40, 600)) {
+			if timeouts >= 10 {
+				break
+			}
 			r := runScriggo(p.ScriggoSource())
+			if r.runErr == context.DeadlineExceeded {
+				timeouts++
+			}
 			if r.buildErr != nil || r.funcs == nil || subsetReason(r.funcs) != "" || r.hostPanic != "" {
 				c.Count("skipped")
 				continue
@@ -97,7 +112,7 @@ func init() {
 
 	// (c) MiniGoSem = gc on the same source
 	Register("C01-sem-cases", func(c *Ctx) {
-		ps := programs(c, count(c, c.N, 60, 600))
+		ps := programs(c, count(c, c.N, 40, 600))
 		gc, err := runGc(ps)
 		if err != nil {
 			c.Line("sem", "0", "gc-unavailable", "error:"+strings.ReplaceAll(err.Error(), "\n", " "))
@@ -145,13 +160,20 @@ func init() {
 func init() {
 	// (a) on the corpus-derived programs
 	Register("C01-vm-corpus-cases", func(c *Ctx) {
+		timeouts := 0
 		for _, cp := range corpusPrograms() {
+			if timeouts >= 10 {
+				break
+			}
 			r := runScriggoBuildOnly(cp.src)
 			if r.hostPanic != "" || r.buildErr != nil || subsetReason(r.funcs) != "" {
 				c.Count("skipped")
 				continue
 			}
 			r = runScriggo(cp.src)
+			if r.runErr == context.DeadlineExceeded {
+				timeouts++
+			}
 			c.Line("run", fmt.Sprint(vmFuel), encodeDump(r.funcs), r.outcome())
 			c.Count("cases")
 			c.Count("end:" + endOf(r.outcome()))
